@@ -231,6 +231,7 @@ def main():
         json.dump({'cookies': res}, builtins.open(sys.argv[2], 'w'), default=lambda o: {'object': type(o).__name__})
         return
     out = {'steps': [], 'loader_proxied': cfg.get('loader_proxied', True)}
+    alive = []          # every class this process defined so far stays alive: it must go on behaving per its OWN declaration
     for k, step in enumerate(cfg['steps']):
         cfg['forge_next'] = step.get('forge_mtime')
         if step.get('drop_source'):
@@ -252,6 +253,8 @@ def main():
             rec['behaviour'] = behaviour(cls)
             rec['reference'] = behaviour(reference(d, step['variant'], k))
             rec['generated'] = [cls.pack_impl.__module__ != 'bisturi.packet', cls.unpack_impl.__module__ != 'bisturi.packet']
+            rec['earlier'] = [[v0, behaviour(c0) == r0] for c0, v0, r0 in alive]
+            alive.append((cls, step['variant'], rec['reference']))
         except BaseException as e:
             rec['defined'] = False
             rec['exc'] = type(e).__name__ + ': ' + str(e)[:200]
